@@ -1,6 +1,6 @@
 """C05 — a run always terminates, stops triggering on time, and leaves nothing running."""
 ID = "C05"
-PROPS = ["F1Verif.Props.C05", "F1Verif.Props.FactsC05"]
+PROPS = ["F1Verif.Props.C05", "F1Verif.Props.C05Time", "F1Verif.Props.FactsC05"]
 ALSO = ["F1Verif.Props.C18", "F1Verif.Props.Pool"]
 RULE = ("engine C: whole runs of the real Run.Do over (mode: constant, staged, ramp, gaussian, users, file) x (ending: "
         "max-duration, trigger duration, max-iterations, cancel at a seeded instant, setup failure, completion timeout with "
@@ -31,6 +31,9 @@ def corpus():
         "run prop=C05 mode=users conc=5 dur=400 body=15",
         "run prop=C05 mode=constant rate=5/100ms dur=600 conc=4 setupfail=1",
         "raterun.stop inflight 5 40 10", "raterun.stop due 5 40 10",
+        "result.stress 500",      # the reporter's tick body against the controller's pre-Stop calls on one Result
+        "run prop=C05 mode=staged stages=0s:4,300ms:4 freq=100 dist=none dur=2500 conc=4 body=10",     # the trigger's own duration ends the run
+        "run prop=C05 mode=file dur=2500 conc=3 file=c:200:3/100ms;u:200:2 body=10",
     ]
 
 
@@ -64,6 +67,8 @@ def generate(rng, tier):
             t = "mode=file file=%s" % ";".join(rng.choice(["c:200:3/100ms", "u:200:2", "z:150"]) for _ in range(rng.randint(1, 3)))
             dur = 3000
         out.append("run prop=C05 %s dur=%d conc=%d body=%d%s" % (t, dur, conc, body, extra))
+    for _ in range({"quick": 0, "thorough": 6, "search": 2}[tier]):
+        out.append("result.stress %d" % rng.choice([1000, 3000]))
     return out
 
 
@@ -76,7 +81,8 @@ def distribution(recs):
     for r in recs:
         c = r["case"]
         if not c.startswith("run "):
-            d["raterun"] = d.get("raterun", 0) + 1
+            k = c.split()[0].split(".")[0]
+            d[k] = d.get(k, 0) + 1
             continue
         mode = [t for t in c.split() if t.startswith("mode=")][0][5:]
         end = "cancel" if "cancel=" in c else "limit" if "maxit=" in c else "setupfail" if "setupfail=" in c else "timeout" if "block=" in c else "duration"
@@ -87,6 +93,6 @@ def distribution(recs):
 
 MANIFEST = {
  "engine": "lean-proof + whole runs + scripted schedules (hooks)",
- "text": "End-of-run lock protocol (controller program as data, Result's RWMutex with writer preference and nested read paths, the progress function's lock/rlock/rlock, Stop = cancel + wait): for every controller program obeying the locking discipline — f1's is checked by the kernel (C05_doTail_disciplined) — every reachable state in which the controller still has work lets some thread move without waiting for a timer (C05_no_deadlock; inductive invariant Inv, omega over Bool codes), every such move decreases a measure (C05_measure), and once the controller is past Stop the runner is gone for good (C05_runner_gone). The pool cannot strand sleepers at shutdown and is empty when terminated (C05_sleepers_woken, C05_pool_clean; from C02/C04's invariants), the runner is quiescent after Stop (C18). The pinned tree's wedge is a kernel-checked deadlock state (legacy_deadlock) replayed on the real Do through the hooks. Tie: whole runs over modes x endings with goroutine diff and return-time bounds.",
- "note": "Partial by nature: real timers, the scheduler's fairness and goroutine exit are assumed and monitored on real runs (exploration in support); the deadline clause 'min(max-duration, trigger duration) - 10 ms' is checked by stall-robust consequences (10 ms runs start nothing; short triggers return early), not proved.",
+ "text": "End-of-run lock protocol (controller program as data, Result's RWMutex with writer preference and nested read paths, the progress function's lock/rlock/rlock, Stop = cancel + wait): for every controller program obeying the locking discipline — f1's is checked by the kernel (C05_doTail_disciplined) — every reachable state in which the controller still has work lets some thread move without waiting for a timer (C05_no_deadlock; inductive invariant Inv, omega over Bool codes), every such move decreases a measure (C05_measure), and once the controller is past Stop the runner is gone for good (C05_runner_gone). The pool cannot strand sleepers at shutdown and is empty when terminated (C05_sleepers_woken, C05_pool_clean; from C02/C04's invariants), the runner is quiescent after Stop (C18). The pinned tree's wedge is a kernel-checked deadlock state (legacy_deadlock) replayed on the real Do through the hooks. Time: the two selects of Run.run as a timed model (Deadline) — triggering stops exactly at the earliest of max-duration less 10 ms, the trigger's own duration less 10 ms, cancellation and the limit (C05_deadline, C05_stop_le, C05_stop_earliest, C05_some_branch_fires), the wait is bounded by the completion timeout (C05_wait_bounded), a return that did not give up means everything in flight finished (C05_finished_unless_timeout) and giving up happens only after the full timeout (C05_gives_up_after_full_timeout). Tie: whole runs over modes x endings with goroutine diff and return-time bounds computed from the Deadline model; result.stress for the pre-Stop lock users.",
+ "note": "Partial by nature: real timers, the scheduler's fairness and goroutine exit are assumed and monitored on real runs (exploration in support); the deadline clause is proved on the timed model of the two selects (environment inputs: cancel instant, limit instant, drain function) and tied by stall-robust time bounds on real runs (150 ms / 1 s margins), so a shift of a few ms in the real code is only caught by the 10 ms-run case and the regenerated source of run().",
  "technique": "Lean 4 deadlock-freedom by inductive invariant + termination measure over a lock-protocol model; whole-run monitoring with scripted interleavings"}
